@@ -117,10 +117,19 @@ func Harness_C05_batched_archive_is_wellformed() {
 		Info:    c01Info{name: "sub", mode: os.ModeDir | 0o750},
 		Path:    "/d/sub",
 	}}
+	// the source callback may hand out a fresh handle every time, or the one already-open handle it was built around
+	// (a *os.File or bytes.Reader captured by the closure): the operation rewinds it between its two passes
+	sharedHandle := vm.Bool("sharedSourceHandle")
 	for i, n := range names {
 		data := []byte("xyz")[:sizes[i]]
+		shared := &c01Src{data: data}
 		members = append(members, config.FileConfig{
-			GetFile: func() (io.ReadSeekCloser, error) { return &c01Src{data: data}, nil },
+			GetFile: func() (io.ReadSeekCloser, error) {
+				if sharedHandle {
+					return shared, nil
+				}
+				return &c01Src{data: data}, nil
+			},
 			Info:    c01Info{name: n, size: int64(len(data)), mode: 0o640},
 			Path:    n,
 		})
